@@ -112,7 +112,19 @@ def pItems : Nat → List String → Option (Items × List String)
   | 0, _ => none
   | _ + 1, ")" :: r => some (.nil, r)
   | f + 1, w :: r =>
-    if w.startsWith "it" then
+    if w.startsWith "itD" then
+      -- `itD<term>.<lead>.<ty>(` body `)` `D(` content of the trailing declaration `)`
+      match (((w.drop 3).toString.dropEnd 1).toString.splitOn ".") with
+      | [t, nsp, ty] => do
+        let (b, r) ← pBlocks f r
+        match r with
+        | "D(" :: r => do
+          let (db, r) ← pBlocks f r
+          let (is, r) ← pItems f r
+          pure (.consD (← t.toNat?) (← lead? nsp) b (← ty.toNat?) db is, r)
+        | _ => none
+      | _ => none
+    else if w.startsWith "it" then
       match (((w.drop 2).toString.dropEnd 1).toString.splitOn ".") with
       | [t, nsp] => do
         let (b, r) ← pBlocks f r
@@ -307,7 +319,9 @@ def handle : List String → String
                else "colspec-differs"
              | _, _ => "-")
           else "-"
-        s!"{m}\t{sp}\t{numCols (rowsOf (b.node 2))}\t{mAsIs}"
+        -- the structural reading of the rows as written (theorem `table_pipeline`): defined for every placement of rules
+        let pipe := "ok:" ++ rowsObs linkRow cols.length (specTable cols (writtenRows 4 c cs rs))
+        s!"{m}\t{sp}\t{numCols (rowsOf (b.node 2))}\t{mAsIs}\t{pipe}"
       | e => s!"{colsRes e}\t-"
     | _, _ => "bad-op"
   | _ => "bad-op"
